@@ -41,6 +41,8 @@ func (c *compiler) compile() (string, error) {
 	for _, stmt := range c.program.Statements {
 		var res interface{}
 		var err error
+		// statements executed inside an earlier block are no longer current
+		c.curStmt = nil
 
 		switch node := stmt.(type) {
 		case *ast.ReturnStatement:
